@@ -217,7 +217,7 @@ class LocMap:
                 # when offset is defined (even if it is zero), null slice is not sufficiently specific; need to convert to an explicit slice relative to the offset
                 return slice(offset, len(positions) + offset) #type: ignore
             try:
-                return slice(*cls.map_slice_args(
+                post = slice(*cls.map_slice_args(
                         label_to_pos.get, #type: ignore
                         key,
                         labels,
@@ -225,6 +225,13 @@ class LocMap:
                         )
             except LocEmpty:
                 return EMPTY_SLICE
+            if offset_apply and (post.start is None or post.stop is None) and (post.step is None or post.step > 0):
+                # when offset is defined, an open bound refers to the ends of these labels, not to those of the containing hierarchy
+                post = slice(
+                        offset if post.start is None else post.start,
+                        len(positions) + offset if post.stop is None else post.stop, #type: ignore
+                        post.step)
+            return post
 
         if isinstance(key, np.datetime64):
             # convert this to the target representation, do a Boolean selection
